@@ -706,6 +706,11 @@ class FnEmit:
             w = int(m.group(2)); sg = m.group(1)[0] == 's'; gt = m.group(1).endswith('max')
             c = ('(int%d_t)%s %s (int%d_t)%s' % (w, a[0], '>' if gt else '<', w, a[1])) if sg else '%s %s %s' % (a[0], '>' if gt else '<', a[1])
             return '((%s) ? %s : %s)' % (c, a[0], a[1])
+        m = re.match(r'llvm\.(usub|uadd)\.sat\.i(\d+)', name)
+        if m:
+            w = int(m.group(2))
+            if m.group(1) == 'usub': return '(%s > %s ? (uint%d_t)(%s - %s) : (uint%d_t)0)' % (a[0], a[1], w, a[0], a[1], w)
+            return '((uint%d_t)(%s + %s) < %s ? (uint%d_t)~(uint%d_t)0 : (uint%d_t)(%s + %s))' % (w, a[0], a[1], a[0], w, w, w, a[0], a[1])
         m = re.match(r'llvm\.abs\.i(\d+)', name)
         if m:
             w = int(m.group(1))
